@@ -327,9 +327,14 @@ def check_table(rule, table, expected, key_prefix, loc, describe=None, require_l
     that return value on all paths."""
     missing = [l for l in require_labels if l not in table.labels_found()]
     if missing:
-        from .model import AnchorMissing
-        raise AnchorMissing("%s: comparison/condition %s not found in %s (conditions seen: %s ; %s)" % (
-            key_prefix, missing, table.func.path, [show_key(k) for k in table.seen_sign], list(table.seen_bool)))
+        # the function exists (the anchor is present) but its decision no longer depends on a quantity the property
+        # names: that is a finding about the code, not an analysis failure
+        for l in missing:
+            rule.violation("%s depends on %s" % (key_prefix, l),
+                           "%s no longer compares/tests `%s` (/%s/); conditions found: %s ; %s" % (
+                               table.func.path, l, (table.name_sign.get(l) or table.name_bool.get(l)).pattern,
+                               [show_key(k) for k in table.seen_sign], list(table.seen_bool)), loc)
+        return 0
     n = 0
     for sc in table.scenarios():
         exp = expected(sc)
